@@ -11,8 +11,13 @@ Report(rule, ok) == IF ok THEN TRUE ELSE PrintT(<<"VIOL", rule, l>>)
 RECURSIVE FramesOf(_)
 FramesOf(n) == IF n = 0 THEN <<>> ELSE IF n <= F THEN <<n>> ELSE <<F>> \o FramesOf(n - F)
 Init == l = 1
+\* "conn" lines: the message written into a real hap.Connection, directly or through a buffered writer as net/http does
+\* (which relies on the io.Writer contract: the count returned is how much of the argument was written); same = a reference
+\* peer opened exactly the message
+Conn(e) == /\ Report("RoundTrip", e.same /\ ~e.panic /\ e.count = e.n)
 Next == /\ l <= Len(Trace)
         /\ LET e == Trace[l] IN
+           IF e.ev = "conn" THEN Conn(e) ELSE
            /\ Report("WireFormat", e.frames = FramesOf(e.n))
            /\ Report("WireFormat", \A i \in 1..Len(e.ctrs) : e.ctrs[i] = e.ctr0 + i - 1)
            /\ Report("WireFormat", e.sameAsRef)
